@@ -241,6 +241,7 @@ int main(void)
             x_dg[x_nd] = malloc(l); x_len[x_nd] = unhex_(tok[i], x_dg[x_nd], l); x_nd++;
         }
         int pfd[2]; if (pipe(pfd)) return 3;
+        static int cmdno; fprintf(stderr, "\n##CMD %d\n", cmdno++); fflush(stderr);
         fflush(stdout);
         pid_t pid = fork();
         if (pid == 0) { close(pfd[0]); x_report = pfd[1]; alarm(8); child(tok, nt); _exit(0); }
